@@ -674,3 +674,150 @@ def pad_boundary_cases():
                         for d in (delivery("repl", b), delivery("client", b, paid=True), delivery("client", b)):
                             cs.append(case("pad-boundary", [copy.deepcopy(d)], store=copy.deepcopy(store)))
     return cs
+
+
+# ------------------------------------------------------------------------------------------- validity from the case spec
+
+def perm_set(b):
+    p = b.get("perm")
+    if p == "anyone":
+        return "anyone"
+    return frozenset([b["owner"]] + (p if isinstance(p, list) else []))
+
+
+def op_ok(b, o):
+    if o.get("addr") is not None and list(o["addr"]) != [b["owner"], b["meta"]]:
+        return False
+    if entry_size(o) > 1024:
+        return False
+    ps = perm_set(b)
+    return True if ps == "anyone" else (o["writer"] in ps and o["sig"] == "ok")
+
+
+def reg_verifies(b):
+    return len(b.get("ops", [])) < 1024 and isinstance(b["osig"], dict) and b["osig"]["by"] == b["owner"] and \
+        all(op_ok(b, o) for o in b.get("ops", []))
+
+
+
+
+def must_be_rejected(d, before):
+    """from the case spec alone: is this delivery one that the properties say must change nothing?
+    (content not validly signed by its owner / not permitted / for another register / other base than the held
+    one).  Returns a reason or None.  `before` = dump_map of the store the delivery met."""
+    b = d["body"]
+    t = b["t"]
+    if t == "pad":
+        return None if pad_valid(b) else "scratchpad not validly signed by its owner"
+    if t in ("tx", "txs"):
+        lst = [b] if t == "tx" else b["list"]
+        k = name_of(d["key"])
+        ok = [x for x in lst if tx_valid(x) and ("H", "owner", x["owner"]) == k]
+        return None if ok else "no validly signed transaction of the owner the key names"
+    if t == "reg":
+        if not reg_verifies(b):
+            return "register does not verify (owner signature / unauthorised, forged or foreign operation / size)"
+        held_ = before.get(("H", "reg", b["owner"], b["meta"]))
+        if held_ is not None and held_["val"].get("t") == "reg":
+            sb = held_["val"]["base"]
+            if (sb["owner"], sb["meta"], perm_set(sb)) != (b["owner"], b["meta"], perm_set(b)):
+                return "register has another base (permissions) than the held one"
+    return None
+
+
+def rejection_violations(case, out):
+    """Model-independent 'nothing changes' clauses for serial runs, on both views of the store (what is readable:
+    every PutLocalRecord the delivery emitted and the store right after it returned; what is listed: the snapshot
+    taken after the acknowledgement):
+      * a delivery that returns an error leaves no write command and a store identical to the one it met;
+      * a delivery whose content the case spec says is invalid (see must_be_rejected) does too, whatever it returns."""
+    v = []
+    if not isinstance(out, dict) or "results" not in out or not is_serial(case):
+        return v
+    for i, (d, r) in enumerate(zip(case["deliveries"], out["results"])):
+        if r.get("store_at_start") is None or r.get("store_after") is None:
+            continue
+        stored = [p for p in r["puts"] if not p.get("refused_by_driver")]
+        changed = dumps(r["store_at_start"]) != dumps(r["store_after"])
+        if r["res"] != "Ok" and (stored or changed):
+            v.append(("rejected-but-changed", "delivery %d (%s, header tag %d, %s) returned %s, yet %d record(s) were written / made "
+                      "readable and the store %s: %s" % (i, d["path"], d["hdr"], d["body"]["t"], r["res"], len(stored),
+                                                        "changed" if changed else "did not change",
+                                                        dumps([p["key"] for p in stored])[:200])))
+            continue
+        why = must_be_rejected(d, dump_map(r["store_at_start"]))
+        if why and (stored or changed):
+            v.append(("invalid-content-changed-store", "delivery %d (%s, header tag %d): %s, yet the store changed (result %s, wrote %s)"
+                      % (i, d["path"], d["hdr"], why, r["res"], dumps([p["val"] for p in stored])[:300])))
+    return v
+
+
+def forged_update_cases():
+    """a held mutable record x an update that must be refused, on every entry point (replicated copy, unpaid
+    update, paid upload with a valid and with a failing payment)"""
+    cs = []
+    held_reg = held(reg(1, 1, ops=[op(1, 1), op(5, 2)], perm=[2]))
+    forged = [
+        reg(1, 1, ops=[op(3, 1)], perm=[2], osig="junk"),
+        reg(1, 1, ops=[op(3, 1)], perm=[2], osig={"by": 2}),
+        reg(1, 1, ops=[op(3, 3)], perm=[2]),                      # writer 3 is not permitted
+        reg(1, 1, ops=[op(3, 2, sig="junk")], perm=[2]),          # forged op signature
+        reg(1, 1, ops=[op(3, 1, addr=[1, 2])], perm=[2]),         # op made for another register
+        reg(1, 1, ops=[op(1, 1), op(3, 3)], perm=[2]),            # one good (known) op, one unauthorised
+        reg(1, 1, ops=[op(3, 1)], perm=[2, 3]),                   # other permissions: different base
+        reg(1, 1, ops=[op(3, 1)], perm="anyone"),
+        reg(1, 1, ops=[op(3, 1, size=1025)], perm=[2]),
+    ]
+    held_pad = held(pad(1, 5))
+    forged_pads = [pad(1, 9, sig="junk"), pad(1, 9, sig="none"), pad(1, 9, signer=2), pad(1, 9, sig="stale")]
+    held_txs = held({"t": "txs", "list": [tx(1, 1)]})
+    forged_txs = [tx(1, 2, sig="junk"), tx(1, 2, signer=2), tx(1, 2, sig="stale")]
+
+    def variants(body):
+        out = [delivery("repl", body if body["t"] != "tx" else {"t": "txs", "list": [body]}),
+               delivery("client", body, paid=True)]
+        if body["t"] != "tx":
+            out.append(delivery("client", body))
+        bad = delivery("client", body, paid=True)
+        bad["chain"] = {"mode": "ok", "valid": [True, False, True]}
+        out.append(bad)
+        return out
+
+    for prior, bodies in ((held_reg, forged), (held_pad, forged_pads), (held_txs, forged_txs)):
+        for b in bodies:
+            for d in variants(b):
+                cs.append(case("forged-update", [copy.deepcopy(d)], store=[copy.deepcopy(prior)]))
+                cs.append(case("forged-first-store", [copy.deepcopy(d)], store=[]))
+    # paid uploads of every kind whose payment fails, to absent and held addresses
+    fails = [{"mode": "rpcerr"}, {"mode": "ok", "valid": [False, True, True]}]
+    for body, prior in (({"t": "chunk", "c": {"d": 1}}, held({"t": "chunk", "c": {"d": 1}})), (pad(1, 9), held_pad),
+                        (tx(1, 2), held_txs), (reg(1, 1, ops=[op(3, 1)], perm=[2]), held_reg)):
+        for ch in fails:
+            for store in ([], [prior]):
+                d = delivery("client", body, paid=True)
+                d["chain"] = ch
+                cs.append(case("failing-payment", [copy.deepcopy(d)], store=copy.deepcopy(store)))
+        d = delivery("client", body, paid=True)
+        d["proof"]["quotes"][1]["sig"] = "junk"
+        cs.append(case("failing-payment", [d], store=[]))
+        d = delivery("client", body, paid=True)
+        d["proof"]["quotes"][2]["age"] = 3_700_000
+        cs.append(case("failing-payment", [d], store=[]))
+    return cs
+
+
+def reg_branch_cases():
+    """concurrent register branches: the node holds L; the delivered copy shares some of L's operations and carries
+    one unknown operation whose position in the ordered op set (entries sort by their bytes 'verif-reg-entry-<id>')
+    is below, between and above the shared ones; copies shorter than, as long as and longer than the held one"""
+    cs = []
+    for L in ([2, 5], [2, 5, 8], [5]):
+        prior = held(reg(1, 1, ops=[op(i, 1) for i in L], perm=[2]))
+        shared_sets = [[]] + [[x] for x in L] + ([[L[0], L[-1]]] if len(L) > 1 else []) + ([L] if len(L) > 2 else [])
+        for new in (1, 3, 6, 9):
+            for shared in shared_sets:
+                for writer in (1, 2):
+                    body = reg(1, 1, ops=[op(i, 1) for i in shared] + [op(new, writer)], perm=[2])
+                    for d in (delivery("repl", body), delivery("client", body), delivery("client", body, paid=True)):
+                        cs.append(case("reg-branch", [copy.deepcopy(d)], store=[copy.deepcopy(prior)]))
+    return cs
